@@ -158,7 +158,9 @@ def oracle_iter(ctx: Ctx, t, nr, nc, which, a, b, c, d):
     R1 = nr - 1 if r1 is None else r1
     C0 = 0 if c0 is None else c0
     C1 = nc - 1 if c1 is None else c1
-    outside = R0 < 0 or C0 < 0 or R1 >= nr or C1 >= nc
+    # every bound that is given must be a position of the table: a negative END or a START at/past the edge is as
+    # much outside as a negative start or an end past the edge
+    outside = any(v is not None and not 0 <= v < n for v, n in ((r0, nr), (r1, nr), (c0, nc), (c1, nc)))
     if outside:
         if st != "!IndexError":
             cls = "zero-bound" if 0 in (r1, c1) else "outside"
@@ -177,6 +179,16 @@ def oracle_iter(ctx: Ctx, t, nr, nc, which, a, b, c, d):
         cls = "zero-bound" if 0 in (r1, c1) else "other"
         ctx.oracle_fail(f"iter-wrong-rectangle:{cls}", case,
                         f"iter_{which}{(a, b, c, d)} on {nr}x{nc}: {[len(x) for x in res]} items per line, expected {[len(x) for x in exp]}")
+        return
+    # values_only=True: the same rectangle, as values
+    if which == "rows":
+        st2, res2 = call(lambda: [list(x) for x in t.iter_rows(min_row=a, max_row=b, min_col=c, max_col=d, values_only=True)])
+    else:
+        st2, res2 = call(lambda: [list(x) for x in t.iter_cols(min_col=a, max_col=b, min_row=c, max_row=d, values_only=True)])
+    expv = [[cell.value for cell in line] for line in exp]
+    if st2 != "ok" or res2 != expv:
+        ctx.oracle_fail("iter-wrong-rectangle:values-only", dict(case, values_only=True),
+                        f"iter_{which}{(a, b, c, d)} values_only=True on {nr}x{nc}: {st2} {[len(x) for x in (res2 or [])]} values per line, expected {[len(x) for x in expv]}")
 
 
 def oracle_a1_history(ctx: Ctx, ops: list):
@@ -297,11 +309,11 @@ def run(ctx: Ctx) -> int:
         for r in rows:
             for c in cols:
                 hists.append([("N", nr, nc), ("W", 0, 0, 0, 5), ("RD", 0, r, c), ("W", 0, r, c, 9), ("D", 0)])
-        opts_r = [None, 0, 1, nr - 2, nr - 1, nr, -1]
-        opts_c = [None, 0, 1, nc - 2, nc - 1, nc, -1]
+        opts_r = [None, 0, 1, nr - 2, nr - 1, nr, -1, -2, nr + 3]
+        opts_c = [None, 0, 1, nc - 2, nc - 1, nc, -1, -2, nc + 3]
         combos = list(itertools.product(opts_r, opts_r, opts_c, opts_c))
         if ctx.quick:
-            combos = [x for i, x in enumerate(combos) if i % 3 == 0 or 0 in x[:2] and 0 in x[2:]]
+            combos = [x for i, x in enumerate(combos) if i % 7 == 0 or 0 in x[:2] and 0 in x[2:]]
         for (a, b, c, d) in combos:
             hists.append([("N", nr, nc), ("W", 0, nr - 1, nc - 1, 3), ("IR", 0, a, b, c, d), ("IC", 0, c, d, a, b)])
     # growth to the limits (one table, sparse)
@@ -354,8 +366,8 @@ def run(ctx: Ctx) -> int:
                                     f"{method}({text!r}) raised but changed the table")
     for (nr, nc) in shapes:
         d, t = fresh(nr, nc)
-        opts_r = [None, 0, 1, nr - 2, nr - 1, nr, -1]
-        opts_c = [None, 0, 1, nc - 2, nc - 1, nc, -1]
+        opts_r = [None, 0, 1, nr - 2, nr - 1, nr, -1, -2, nr + 3]
+        opts_c = [None, 0, 1, nc - 2, nc - 1, nc, -1, -2, nc + 3]
         for a, b, c, dd in itertools.product(opts_r, opts_r, opts_c, opts_c):
             oracle_iter(ctx, t, nr, nc, "rows", a, b, c, dd)
             oracle_iter(ctx, t, nr, nc, "cols", c, dd, a, b)
